@@ -33,6 +33,7 @@ from _ast import IsNot
 from _ast import LShift
 from _ast import Lt
 from _ast import LtE
+from _ast import MatMult
 from _ast import Mod
 from _ast import Mult
 from _ast import Name
@@ -40,6 +41,7 @@ from _ast import Not
 from _ast import NotEq
 from _ast import NotIn
 from _ast import Or
+from _ast import Pow
 from _ast import PyCF_ONLY_AST
 from _ast import RShift
 from _ast import Sub
@@ -60,6 +62,8 @@ BINOP_SYMBOLS = {
     BitOr: "|",
     BitAnd: "&",
     BitXor: "^",
+    Pow: "**",
+    MatMult: "@",
 }
 
 CMPOP_SYMBOLS = {
